@@ -31,6 +31,15 @@ def _strip_json(e, fi=None):
     return names[0] if len(set(names)) == 1 else None
 
 
+def _base_text(e, fi):
+    """text of the container an item is written into, through a local bound once to it (metadata = self._metadata[b])"""
+    if isinstance(e, ast.Name):
+        d = single_def(fi, e.id)
+        if d is not None:
+            return norm(d)
+    return norm(e)
+
+
 def update_model(prog, fi):
     """The dynamic UPDATE of SqliteStorage.update_bucket as data: which (column, value expression) pairs are candidates,
     how they are filtered, and whether the SET list and the bindings are the two halves of the same filtered pairs.
@@ -207,8 +216,11 @@ def field_tables(prog, rep):
     dl = [n for n in walk_own(mc.node) if isinstance(n, ast.Dict) and any(isinstance(k, ast.Constant) and k.value == "hostname" for k in n.keys)]
     if len(dl) == 1:
         composite = {}
+        name_default_in_literal = False
         for k, v in zip(dl[0].keys, dl[0].values):
             p = _strip_json(v)
+            if p is None and k.value == "name" and norm(v) in (f"name or {bparam(mc)}", f"name if name else {bparam(mc)}", f"{bparam(mc)} if not name else name", f"{bparam(mc)} if name is None else name", f"name if name is not None else {bparam(mc)}"):
+                p, name_default_in_literal = "name", True  # the default (the id, when no name is given) written into the literal
             composite[p] = k.value
         rep.check(composite == CREATE_MAP, "FIELDS", mc.short, "stored dict", f"{composite}", f"parameter->key map is {composite}, expected {CREATE_MAP}", mc.loc(), expected=CREATE_MAP, found=composite)
         # name defaults to the id only when not given
@@ -220,7 +232,7 @@ def field_tables(prog, rep):
     mu = prog.func("MemoryStorage.update_bucket")
     umap = {}
     for n in walk_own(mu.node):
-        if isinstance(n, ast.Assign) and isinstance(n.targets[0], ast.Subscript) and isinstance(n.targets[0].slice, ast.Constant) and norm(n.targets[0].value).startswith("self._metadata["):
+        if isinstance(n, ast.Assign) and isinstance(n.targets[0], ast.Subscript) and isinstance(n.targets[0].slice, ast.Constant) and _base_text(n.targets[0].value, mu).startswith("self._metadata["):
             umap[_strip_json(n.value)] = n.targets[0].slice.value
     rep.check(umap == UPDATE_MAP, "FIELDS", mu.short, "update table", f"{umap}", f"update_bucket writes parameter->key {umap}, expected {UPDATE_MAP}", mu.loc(), expected=UPDATE_MAP, found=umap)
     # starts empty
@@ -236,8 +248,8 @@ def guarded_updates(prog, rep):
         for n in walk_own(fi.node):
             if isinstance(n, ast.Assign) and isinstance(n.targets[0], (ast.Subscript, ast.Attribute)):
                 t = n.targets[0]
-                base = norm(t.value)
-                if not (base.startswith("self._metadata[") or base == "bucket"):
+                base = _base_text(t.value, fi)
+                if not (base.startswith("self._metadata[") or norm(t.value) == "bucket"):
                     continue
                 n_w += 1
                 p = _strip_json(n.value)
@@ -446,6 +458,12 @@ def not_found(prog, rep):
                         pol_missing = norm(tests[0].ast) == "row is None"
                         miss = [v for v, lab in g.succ[tests[0].id] if lab and lab[2] is pol_missing]
                         ok = all(g.exit not in g.reach_avoiding([v], include_start=True) for v in miss) and bool(miss)
+                    if not tests and raises:
+                        # `for row in <SELECT ... WHERE id = ?>: return {...}` followed by the raise: no row -> the loop is left at once
+                        loops = [n for n in g.nodes if n.kind == "for" and ".execute(" in norm(n.ast.iter)]
+                        if len(loops) == 1:
+                            miss = [v for v, lab in g.succ[loops[0].id] if lab and lab[0] == "for" and lab[2] is False]
+                            ok = bool(miss) and all(g.exit not in g.reach_avoiding([v], include_start=True) for v in miss)
                     why = "a missing row does not raise ValueError"
                 else:
                     # update: UPDATE ... WHERE id = ? changes nothing for an unknown id; the error comes from the trailing get_metadata()
